@@ -16,7 +16,7 @@ import flowdyn.modelphy.shallowwater as shw
 MESH_KINDS = ["uni", "refined", "morphed", "arb"]
 
 
-def mesh1d(rng, kind=None, ncell=None, nmin=3, nmax=24, x0=True, big=0.0):
+def mesh1d(rng, kind=None, ncell=None, nmin=3, nmax=24, x0=True, big=0.0, lscale=0.0):
     """returns (mesh, description dict).  'arb' = arbitrary monotone faces through a piecewise-linear morphing.
     big: probability of a LARGE mesh (257...1500 cells): a size-dependent code path (another solver, a vectorised branch above a
     threshold) is only taken there"""
@@ -25,9 +25,14 @@ def mesh1d(rng, kind=None, ncell=None, nmin=3, nmax=24, x0=True, big=0.0):
         nc = int(rng.integers(257, 1501))
     kind = kind or str(rng.choice(MESH_KINDS))
     L = float(np.round(rng.uniform(0.5, 5.0), 3))
+    lfac = 1.0
+    if lscale and rng.random() < lscale:
+        # domains of micrometres ... thousands of kilometres: cell sizes far from 1 (absolute tolerances hidden in the code show here)
+        lfac = float(10 ** rng.uniform(-9, 9))
+        L = float(L * lfac)
     d = {"kind": kind, "ncell": nc, "length": L}
     if kind == "uni":
-        xo = float(np.round(rng.uniform(-2, 2), 3)) if x0 else 0.0
+        xo = float(np.round(rng.uniform(-2, 2), 3)) * lfac if x0 else 0.0       # the origin scales with the domain (else its round-off swamps the cells)
         d["x0"] = xo
         r = rng.random()
         if r < 0.15:      # a uniform mesh built by the morphing class with its default (identity) morph
@@ -46,6 +51,8 @@ def mesh1d(rng, kind=None, ncell=None, nmin=3, nmax=24, x0=True, big=0.0):
         return fmesh.refinedmesh(ncell=nc, length=L, ratio=ratio, nratioa=a, nratiob=b), d
     if kind == "morphed":
         amp = float(np.round(rng.uniform(0.0, 0.9), 3))
+        if rng.random() < 0.2:
+            amp = float(10 ** rng.uniform(-9, -4))        # NEARLY uniform: spacing varies by 1e-9...1e-4 relative (a mesh is uniform or it is not)
         d["morph"] = "x + %g*L/(2pi)*sin(2pi x/L)" % amp
         return fmesh.morphedmesh(ncell=nc, length=L, morph=lambda x: x + amp * L / (2 * np.pi) * np.sin(2 * np.pi * x / L)), d
     if kind == "arb":
@@ -428,13 +435,13 @@ def _warm_up(rng, s, bc, mach_max, ratio):
 
 
 def scenario1d(rng, models=MODELS1D, bc=None, recons=ALL_RECONS, meshkinds=MESH_KINDS, ncell=None, nmin=3, nmax=24,
-               dkind=None, fluxes=None, mach_max=2.0, ratio=10.0, source=None, mname=None, section=None, warm=None, intdata=0.0, big=0.0):
+               dkind=None, fluxes=None, mach_max=2.0, ratio=10.0, source=None, mname=None, section=None, warm=None, intdata=0.0, big=0.0, lscale=0.0):
     s = Scn()
     s.mname = mname or str(rng.choice(models))
     s.model, s.mparams = make_model(s.mname, rng, source=source, section=section)
     fl = (fluxes or FLUXES)[s.mname]
     s.flux = fl[int(rng.integers(len(fl)))]
-    s.mesh, s.mdesc = mesh1d(rng, kind=str(rng.choice(meshkinds)), ncell=ncell, nmin=nmin, nmax=nmax, big=big)
+    s.mesh, s.mdesc = mesh1d(rng, kind=str(rng.choice(meshkinds)), ncell=ncell, nmin=nmin, nmax=nmax, big=big, lscale=lscale)
     if ratio > 100.0:   # huge jumps: unlimited extrapolation would leave the admissible set (negative face pressures)
         recons = [r for r in recons if r == "extrapol1" or r.startswith("muscl")] or ["extrapol1"]
     s.num, s.rname = recon(str(rng.choice(recons)), rng)
